@@ -1,6 +1,6 @@
 (* Comparison helpers for the generated correspondence cases of C03 / C16 (no proofs). *)
 From Coq Require Import String Ascii List Bool Arith.
-From LV Require Import Base.Prelude Shape.Chain Shape.Spec Shape.Transform.
+From LV Require Import Base.Prelude Shape.Chain Shape.Spec Shape.Transform Shape.Ebnf.
 Import ListNotations.
 
 Fixpoint stree_eqb (a b : stree) : bool :=
@@ -99,6 +99,19 @@ Definition e2e_check (c : e2e_case) : bool :=
   && match shape mp d with Some t' => stree_eqb t t' | None => false end
   && match lalr_run mp (postorder d) with Some [t'] => stree_eqb t t' | _ => false end.
 
+(* FindRuleSize: keep_all, the rule tree, FindRuleSize(keep_all).transform(tree), and the number
+   of _EMPTY symbols in the second alternative returned by EBNF_to_BNF.maybe(tree) *)
+Definition frs_case := (bool * ebnf * nat * nat)%type.
+
+Definition frs_check (c : frs_case) : bool :=
+  let '(ka, e, n, m) := c in
+  wf_ebnf e && Nat.eqb (frs ka e) n && Nat.eqb n m && Nat.eqb (longest ka e) n.
+
+(* all C03 case kinds in one list (fewer generated files) *)
+Inductive c03_case := CaseCB (c : cb_case) | CaseE2E (c : e2e_case) | CaseFRS (c : frs_case).
+Definition c03_check (c : c03_case) : bool :=
+  match c with CaseCB x => cb_check x | CaseE2E x => e2e_check x | CaseFRS x => frs_check x end.
+
 (* C16 ------------------------------------------------------------------------------------ *)
 (* the symbolic transformer: callbacks on the listed rule names / terminal types build tagged nodes *)
 Definition sym_T (rules toks : list string) : transformer :=
@@ -130,3 +143,7 @@ Definition emb_check (c : emb_case) : bool :=
   && match embedded T mp d with Some v' => value_eqb v v' | None => false end
   && match embedded_run T mp (postorder d) with Some [v'] => value_eqb v v' | _ => false end
   && match shape mp d with Some t' => stree_eqb t t' && value_eqb v (tr T t') | None => false end.
+
+Inductive c16_case := CaseTR (c : tr_case) | CaseEMB (c : emb_case).
+Definition c16_check (c : c16_case) : bool :=
+  match c with CaseTR x => tr_check x | CaseEMB x => emb_check x end.
